@@ -385,7 +385,11 @@ func RunC02(tier string, args []string) int {
 		}
 	}
 	if tier == "thorough" {
-		// lists of four responders
+		// lists of four responders (over the behaviours but the slow one, which the lists of up to three cover)
+		nb := nb - 1
+		if c02Behaviours[nb] != "slow-error-page" {
+			panic("c02: the slow behaviour is expected to be the last one")
+		}
 		for a := 0; a < nb; a++ {
 			for b := 0; b < nb; b++ {
 				for d := 0; d < nb; d++ {
